@@ -470,6 +470,7 @@ func c13(r *Report) {
 	})
 
 	r.Guard("C13.R5", "requests addressed to the proxy's own API are never counted by a verifier", func() {
+		contextFlagRules(r, "APIRequest", "IsAPIRequest")
 		for _, l := range leaves {
 			fn := w.method(l.T, l.S.modify)
 			if fn == nil {
